@@ -4,48 +4,108 @@
 //! Method: the same request is handled by two identically configured servers (same clock
 //! reading, same synchronisation state, same policy, same key set), once with a 1024-byte buffer
 //! and once with a buffer of exactly the request's length. Oracle: answered-with-big =>
-//! answered-with-small, with the same bytes.
+//! answered-with-small, with the same length and the same statistics.
+//!
+//! Request shapes are layout templates (constant first byte / lengths / field types, symbolic
+//! contents; see c18.rs for why). The defect predicates that are assumed away / assumed by the
+//! `_kf_` harnesses are stated at each template.
 use crate::common::*;
 use crate::stubs;
-use ntp_proto::verif::packet::v5::server_reference_id as bh;
 use ntp_proto::*;
+use std::sync::Arc;
 
-pub const BIG: usize = 1024;
-
-/// Handle `msg` twice (big buffer, request-sized buffer) and check the C17 implication.
-/// Returns (answer length with the big buffer, answered with the request-sized buffer).
-pub fn fit_check(env: &Env, msg: &[u8], small: &mut [u8]) -> (Option<usize>, bool) {
-    let mut big = [0u8; BIG];
+/// Handle `msg` twice (1024-byte buffer, request-sized buffer) and check the C17 implication.
+/// Returns the answer length with the big buffer.
+pub fn fit_check(env: &Env, msg: &[u8]) -> Option<usize> {
+    let mut big_backing = [0u8; BUF + SLACK];
+    let mut small_backing = [0u8; BUF + SLACK];
+    let len = msg.len();
     let mut s1 = env.server(v5::BloomFilter::new(), empty_keyset());
-    let mut s2 = env.server(v5::BloomFilter::new(), empty_keyset());
     let mut st1 = RecStats::default();
+    let r_big = handle_once(&mut s1, env, msg, &mut big_backing[..BUF], &mut st1);
+    std::mem::forget(s1);
+    let mut s2 = env.server(v5::BloomFilter::new(), empty_keyset());
     let mut st2 = RecStats::default();
-    let r_big = handle_once(&mut s1, env, msg, &mut big, &mut st1);
-    let r_small = handle_once(&mut s2, env, msg, small, &mut st2);
-    if let Some(n) = r_big {
-        assert!(n < BIG, "the big buffer did not limit the answer");
-        assert!(r_small.is_some(), "C17: an answer that is produced with a large buffer also fits a request-sized buffer");
-        if let Some(m) = r_small {
-            assert!(m == n, "same answer length with both buffers");
+    let r_small = handle_once(&mut s2, env, msg, &mut small_backing[..len], &mut st2);
+    std::mem::forget(s2);
+    match r_big {
+        Some(n) => {
+            assert!(n < BUF, "the big buffer did not limit the answer");
+            assert!(r_small.is_some(), "C17: an answer that is produced with a large buffer also fits a request-sized buffer");
+            assert!(r_small == Some(n), "same answer length with both buffers");
+            assert!(st2.reason == st1.reason && st2.response == st1.response, "same statistics with both buffers");
         }
-        assert!(st2.reason == st1.reason && st2.response == st1.response, "same statistics with both buffers");
-    } else {
-        assert!(r_small.is_none(), "a smaller buffer never turns an ignored request into an answered one");
+        None => {
+            assert!(r_small.is_none(), "a smaller buffer never turns an ignored request into an answered one");
+        }
     }
-    (r_big, r_small.is_some())
+    r_big
 }
 
 srv_harness! {
-    #[kani::unwind(20)]
-    fn c17_fit_u52() {
-        let msg: [u8; 52] = kani::any();
-        let len: usize = kani::any();
-        kani::assume(len <= 52);
+    #[kani::unwind(4)]
+    fn c17_fit_v3() {
+        let mut msg: [u8; 52 + SLACK] = kani::any();
+        msg[0] = 0x1B; // LI 0, version 3, client mode
         let env = Env::any();
-        let mut small = [0u8; 52];
-        let (big, _) = fit_check(&env, &msg[..len], &mut small[..len]);
-        kani::cover!(big == Some(48) && len == 48, "48-byte request answered in 48 bytes");
-        kani::cover!(big == Some(48) && len == 52, "request with MAC answered");
-        kani::cover!(big.is_none() && len >= 48, "ignored request");
+        let a = fit_check(&env.with(Policy::Serve), &msg[..48]);
+        let b = fit_check(&env.with(Policy::Serve), &msg[..52]);
+        let c = fit_check(&env.with(Policy::DenyAddress), &msg[..48]);
+        kani::cover!(a == Some(48), "48-byte request answered in 48 bytes");
+        kani::cover!(b == Some(48), "request with MAC answered");
+        kani::cover!(c == Some(48), "DENY fits");
+    }
+}
+
+srv_harness! {
+    #[kani::unwind(4)]
+    fn c17_fit_v4() {
+        let mut msg: [u8; 52 + SLACK] = kani::any();
+        msg[0] = 0x23; // LI 0, version 4, client mode
+        let env = Env::any();
+        let a = fit_check(&env.with(Policy::Serve), &msg[..48]);
+        let b = fit_check(&env.with(Policy::Serve), &msg[..52]);
+        let c = fit_check(&env.with(Policy::DenyAddress), &msg[..48]);
+        kani::cover!(a == Some(48), "48-byte request answered in 48 bytes");
+        kani::cover!(b == Some(48), "request with MAC answered");
+        kani::cover!(c == Some(48), "DENY fits");
+    }
+}
+
+/// NTPv4 request with two unique-identifier fields of total lengths `l1`, `l2` followed by
+/// `trailer` bytes (<= 24: parsed as a MAC; RFC 7822: a trailing field must be longer than 24 bytes
+/// to be taken as an extension field).
+///
+/// Defect predicate P_uid (plain NTPv4): "the request carries at least two unique-identifier
+/// fields and one of them is shorter than the RFC 7822 minimum it is re-encoded with (16 bytes,
+/// 28 bytes for the last field of the answer)". `c17_fit_v4_uids` instantiates not-P_uid,
+/// `c17_fit_kf_short_uids` instantiates P_uid.
+fn fit_v4_two_uids<const L1: usize, const L2: usize, const TRAILER: usize>() -> Option<usize> {
+    let mut backing: [u8; 160] = kani::any();
+    let len = 48 + L1 + L2 + TRAILER;
+    assert!(len + SLACK <= 160);
+    let env = Env::any().with(Policy::Serve);
+    backing[0] = 0x23;
+    put_ef(&mut backing, 48, EF_UID, L1 as u16);
+    put_ef(&mut backing, 48 + L1, EF_UID, L2 as u16);
+    fit_check(&env, &backing[..len])
+}
+
+srv_harness! {
+    #[kani::unwind(6)]
+    fn c17_fit_v4_uids() {
+        // both identifiers at their re-encoding minimum (16, 28): answer = 48 + 16 + 28 = request
+        let r = fit_v4_two_uids::<16, 28, 0>();
+        kani::cover!(r == Some(92), "answer as long as the request");
+    }
+}
+
+srv_harness! {
+    #[kani::unwind(6)]
+    fn c17_fit_kf_short_uids() {
+        // two empty (4-byte) identifiers + 24-byte MAC: 80-byte request; the answer pads the
+        // identifiers to 16 and 28 bytes: 92 bytes. EXPECTED TO FAIL (known finding).
+        let r = fit_v4_two_uids::<4, 4, 24>();
+        kani::cover!(r == Some(92), "answer longer than the request");
     }
 }
